@@ -353,6 +353,7 @@ def selection_check(ctx, res):
 
             class Master:
                 id = "m"
+                spec = execnet.XSpec("popen//id=m")   # (a caller may look at how the master itself was made)
 
                 def remote_exec(self, src):
                     class Ch:
@@ -629,6 +630,8 @@ def worker_configs():
     cfg = [
         ("exec312", dict(spec="popen//python=%s -S -E" % PY312, ref="import")),
         ("exec312-mto", dict(spec="popen//python=%s -S -E//execmodel=main_thread_only" % PY312, ref="import-mto", errors=False)),
+        # the transmitted source is read by the child with its *locale* encoding: a C locale without UTF-8 mode
+        ("exec312-clocale", dict(spec="popen//python=env LC_ALL=C %s -S -E -X utf8=0" % PY312, ref="import")),
         ("via-exec", dict(spec="popen//via=exec312//python=%s -S -E" % PY312, ref="import", needs=["exec312"])),
         ("via-import", dict(spec="popen//via=import//python=%s -S -E" % PY312, ref="import")),
         ("socket312", dict(server=PY312, ref="import")),
@@ -645,7 +648,10 @@ def worker_configs():
 
 
 def classify(worker, text):
-    if worker == "via-socket" and "cannot import name 'Message' from '__main__'" in text:
+    if worker == "via-socket" and ("cannot import name 'Message' from '__main__'" in text or
+                                   ("cannot send to <Channel" in text and "closed" in text)):
+        # (the forwarder's ImportError closes the proxy channel; depending on who is faster the initiator sees the
+        # RemoteError with that text or fails to send the spec on the channel that was just closed)
         return FINDING_VIA_SOCKET
     return None
 
